@@ -22,6 +22,9 @@ func (ex *Exec) divC(t *Term, m *big.Int) *Term {
 
 func (ex *Exec) wrap(t *Term, ii intInfo) *Term {
 	if t.lo != nil && t.hi != nil && t.lo.Cmp(ii.lo) >= 0 && t.hi.Cmp(ii.hi) <= 0 {
+		if ii.bits == 8 && !ii.signed {
+			ex.recordByte(t, t)
+		}
 		return t
 	}
 	if !ii.signed {
@@ -451,6 +454,9 @@ func (ex *Exec) divmod(s *Term, m *big.Int) (*Term, *Term) {
 		return ts.Div(s, mt), ts.Mod(s, mt)
 	}
 	if s.lo != nil && s.hi != nil && s.lo.Sign() >= 0 && s.hi.Cmp(m) < 0 {
+		if m.Cmp(bi(256)) == 0 {
+			ex.recordByte(s, s)
+		}
 		return ts.Int64(0), s
 	}
 	if s.op == "ite" && (s.args[1].IsConst() || s.args[2].IsConst()) {
@@ -486,12 +492,46 @@ func (ex *Exec) divmod(s *Term, m *big.Int) (*Term, *Term) {
 		r.tz = s.tz
 	}
 	eq := ts.Eq(s, ts.Add(ts.Mul(mt, q), r))
+	if q.op == "var" && pow2m {
+		ex.dmSrc[q.id] = dmSource{s: s, shift: uint(m.BitLen() - 1)}
+	}
+	if m.Cmp(bi(256)) == 0 {
+		ex.recordByte(r, s)
+	}
 	if q.op == "var" {
 		ex.defOf[q.id] = eq
 	}
 	ex.defOf[r.id] = eq
 	ex.dmCache[key] = [2]*Term{q, r}
 	return q, r
+}
+
+// recordByte remembers that r = s mod 256 is a particular byte of a machine word (used to
+// recognise re-assembled integers in bytesToInt).
+func (ex *Exec) recordByte(r, s *Term) {
+	if r.IsConst() {
+		return
+	}
+	src, shift := s, uint(0)
+	if d, ok := ex.dmSrc[s.id]; ok {
+		src, shift = d.s, d.shift
+	}
+	if src.lo == nil || src.lo.Sign() < 0 || src.hi == nil || shift%8 != 0 {
+		return
+	}
+	n := (src.hi.BitLen() + 7) / 8
+	if n <= 8 {
+		for _, w := range []int{1, 2, 4, 8} {
+			if n <= w {
+				n = w
+				break
+			}
+		}
+	}
+	j := int(shift / 8)
+	if j < n {
+		ex.byteProv[r.id] = byteProv{src: src, n: n, i: n - 1 - j}
+	}
 }
 
 func (ex *Exec) bitsIntrinsic(st *PState, name string, args []Value) (Value, bool) {
